@@ -117,7 +117,7 @@ v = ["From OFGA Require Import Check.V1 Check.V2Breaking Check.V2Contract Check.
 ids, nreq, nx = [], 0, 0
 want = {}
 for cid, vals in cases:
-    _, m, conds, tuples, atoms, md, mgok, backend, cyc, cyct, subjects = vals
+    _, m, conds, tuples, atoms, md, mgok, backend, cyc, cyct, subjects = vals[:11]
     fuel = len(atoms) + 3
     parts, xparts = [], []
     evaluated = []   # (subject, result) in the oracle's order of R lines
